@@ -12,7 +12,8 @@ RULE = ("case = (generated program: 1..3 modules, comb + 1..2 sync domains (eith
         "empty cases, Default, cases after Default), FSM/State/next/ongoing; targets: signal, slice, nested slice, concatenation, "
         "bit_select/word_select with in- and out-of-range offsets, array element, sign reinterpretation; right-hand sides from the "
         "exact-integer grammar of dsim/refint.py, incl. ClockSignal / ResetSignal reads; up to two modules define a domain of their "
-        "own under an outer domain's name), scheduler order, explicit step list of input writes, clock level changes "
+        "own under an outer domain's name), scheduler order, structured testbench writes (ctx.set through slices, concatenations, "
+        "part selects, array elements of inputs) and writes that must be refused without effect, explicit step list of input writes, clock level changes "
         "(alone / coincident, active / inactive), reset pulses landing in every FSM state). Non-trivial = some driven signal "
         "changed and a fault kind fired; distinct = distinct SHA-256 of the observation trace.")
 ASSUMPTIONS = [
@@ -25,7 +26,8 @@ COMPONENTS = {"real": ["amaranth.hdl._dsl.Module (If/Elif/Else, Switch/Case/Defa
                        "amaranth.sim._pyrtl (_StatementCompiler, _LHSValueCompiler, _RHSValueCompiler)", "amaranth.sim.pysim"],
               "stub": ["PermSet scheduler seam", "clock/reset driver", "reference interpreter (dsim/refint.py)"]}
 EXPECTED_PROBES = ("sched", "coincide", "inactive", "srst", "arst", "if", "switch", "fsm", "part", "array", "cat", "as_signed",
-                   "matches", "dontcare_pattern", "submodules", "zero_width", "obs_changes")
+                   "matches", "dontcare_pattern", "submodules", "zero_width", "obs_changes", "structured_write", "refused_write",
+                   "shadowing_domain", "part_select_on_partly_owned_signal")
 OPTS = {"max_domains": 2, "max_modules": 3, "wrappers": False, "prints": False, "fsm": True, "shadows": True, "clock_reads": True, "partial_part": True}
 
 
@@ -36,7 +38,7 @@ def gen_case(seed, tier):
     sc = stream(seed, "sched")
     prog = progen.gen_program(cfg, OPTS)
     n = cfg.randint(10, 70) if tier == "quick" else cfg.randint(10, 200)
-    steps = progdrv.gen_steps(prog, wl, fl, n, p_reset=fl.choice([0.0, 0.05, 0.15]), p_coincide=fl.choice([0.0, 0.3, 0.7]), p_mixed=fl.choice([0.0, 0.1, 0.25]))
+    steps = progdrv.gen_steps(prog, wl, fl, n, p_reset=fl.choice([0.0, 0.05, 0.15]), p_coincide=fl.choice([0.0, 0.3, 0.7]), p_mixed=fl.choice([0.0, 0.1, 0.25]), setx=fl.choice([0.0, 0.2, 0.4]))
     return {"prog": prog, "sched": {"mode": sc.choice(["seeded", "seeded", "reverse", "insertion"]), "seed": sc.randrange(1 << 32)},
             "steps": steps}
 
